@@ -67,3 +67,13 @@ package xpull
 //@   before select#1 assert selwaits(s.closeQ)
 //@
 // ---- end generated wake-on-close contracts ----
+// ---- generated default contracts (tools/gen_default_contracts.py) ----
+//@ func NewProtocol
+//@   ensures cast("*socket", result).closed == false
+//@   ensures cast("*socket", result).closeQ != nil && !closed(cast("*socket", result).closeQ)
+//@   ensures cast("*socket", result).sizeQ != nil && !closed(cast("*socket", result).sizeQ)
+//@   ensures cast("*socket", result).recvQ != nil && cap(cast("*socket", result).recvQ) == cast("*socket", result).recvQLen
+//@   ensures cast("*socket", result).recvQLen == 128
+//@   ensures cast("*socket", result).recvExpire == 0
+//@
+// ---- end generated default contracts ----
